@@ -416,8 +416,10 @@ def write_evidence(prop_id, tier, seed, coverage, wall, violations, assumptions)
 
 
 def _hex_args(line):
+    """indices of arguments that are byte strings (an all-digit argument shorter than 12 characters is
+    taken to be a decimal number, not hex)"""
     parts = line.split("\t")
-    return [i for i, p in enumerate(parts) if i > 0 and (p == "-" or re.fullmatch(r"(?:[0-9a-f]{2})+", p))]
+    return [i for i, p in enumerate(parts) if i > 0 and (p == "-" or (re.fullmatch(r"(?:[0-9a-f]{2})+", p) and (len(p) >= 12 or re.search(r"[a-f]", p))))]
 
 
 def shrink_case(prop, case, still_fails, budget=400):
